@@ -285,13 +285,10 @@ theorem keeps_flushMem (s : State) (oi : Nat) (o : Obj) (force : Bool)
     | none =>
       simp only
       split
-      · -- clear and reload
+      · -- merge the file content in place
         split
-        all_goals first
-          | exact Keeps.of_sameBook (SameBook.of_core (by simp))
-          | (split
-             · exact Keeps.of_sameBook (SameBook.of_core (by simp))
-             · exact Keeps.of_sameBook ((SameBook.of_core (by simp)).trans (sameBook_mergeInto _ _ _ _)))
+        · exact Keeps.refl s
+        · exact Keeps.of_sameBook (sameBook_mergeInto _ _ _ _)
       · exact Keeps.refl s
     | some e =>
       have hw0 : ∀ e' : Entry, weight s.strategy s.flen { e' with modified := false } = 0 := by
@@ -319,10 +316,8 @@ theorem keeps_flushMem (s : State) (oi : Nat) (o : Obj) (force : Bool)
               (by intro hok; have := size_ge_weight hok he; rw [hw0, ← hw] at *; omega) rfl ?_ rfl rfl
             show _ - 1 = s.size - 1
             rw [hb.2.1]
-  · -- rebuild from scratch
-    refine Keeps.of_sameBook (SameBook.trans ?_ (sameBook_mergeInto _ _ _ _))
-    refine SameBook.trans ?_ (sameBook_own _ _ _ _)
-    exact ⟨rfl, rfl, rfl, rfl⟩
+  · -- a container of its own (memory only)
+    exact Keeps.of_sameBook ⟨rfl, rfl, rfl, rfl⟩
 
 
 theorem keeps_flushOne (s : State) (oi : Nat) (force : Bool) : Keeps s (flushOne s oi force).1 := by
